@@ -1,8 +1,8 @@
 SPECIFICATION Spec
 CONSTANTS
   OffsMod = 65536
-  Part = "septerm"
-  Kind = "urihdrs"
+  Part = "names2"
+  Kind = "uriparams"
   NPat = 1
 INVARIANTS Emit
 CHECK_DEADLOCK FALSE
